@@ -91,8 +91,9 @@ public:
    */
   virtual size_t getSize() = 0;
 
-  /** Saves the hash to a file */
-  void save(std::ostream &fp);
+  /** Saves the hash to a file (always in the layout load() reads: one field
+      per slot of the table) */
+  virtual void save(std::ostream &fp);
 
   /** Loads a hash from a file*/
   static Hash *load(std::istream &fp, int r);
